@@ -83,6 +83,67 @@ func Isolation(name string, tags map[string]bool) *vtx.Profile {
 	}
 }
 
+// IsolationFamily: two clients whose source addresses differ only in address
+// family representation (10.0.0.2:4000 and [::10.0.0.2]:4000, the deprecated
+// IPv4-compatible form) plus a third on the same IP with another port.
+func IsolationFamily(name string, tags map[string]bool) *vtx.Profile {
+	depth := 4
+	if rep.Thorough() {
+		depth = 5
+	}
+	cl := []string{"c1", "c1x", "c2"}
+
+	return &vtx.Profile{
+		Name: name, Configs: []vtx.Config{{}}, Clients: cl, Peers: []string{"A", "B"}, Chans: []uint16{N1}, Depth: depth, Drain: true, Tags: tags,
+		Menu: func(m *vtx.Model, now time.Time, _ int) []vtx.Event {
+			var e []vtx.Event
+			for _, c := range cl {
+				if m.Allocs[c] == nil {
+					e = append(e, E("alloc", c, 0))
+				} else {
+					e = append(e, vtx.Event{K: "refresh", C: c, L: 0}, E("perm", c, 0, "A"), E("chan", c, N1, "B"))
+				}
+			}
+
+			return append(e, vtx.AdvanceMenu(m, now, ns1, nil)...)
+		},
+	}
+}
+
+// IsolationTCP: two TCP allocations (different users) on one stream listener
+// reusing the same peers for Connect and inbound connections.
+func IsolationTCP(name string, tags map[string]bool) *vtx.Profile {
+	depth := 4
+	if rep.Thorough() {
+		depth = 5
+	}
+	cl := []string{"c1", "c2"}
+
+	return &vtx.Profile{
+		Name: name, Configs: []vtx.Config{{Stream: true}}, Clients: cl, Peers: []string{"A", "B"}, Depth: depth, Drain: true, Tags: tags, Resources: true,
+		Setup: func(vtx.Config) []vtx.Event {
+			return []vtx.Event{{K: "alloc", C: "c1", L: -1, TCP: true}, {K: "alloc", C: "c2", L: -1, TCP: true}}
+		},
+		Menu: func(m *vtx.Model, now time.Time, _ int) []vtx.Event {
+			var e []vtx.Event
+			for _, c := range cl {
+				e = append(e, E("connect", c, 0, "A"), E("connect", c, 0, "B"), E("perm", c, 0, "A"), E("peerdial", c, 0, "A"),
+					vtx.Event{K: "refresh", C: c, L: 0})
+				other := "c2"
+				if c == "c2" {
+					other = "c1"
+				}
+				for i := range m.ConnView[c] {
+					e = append(e, vtx.Event{K: "cbind", C: c, N: uint16(i), Peers: []string{c}, L: -1}, //nolint:gosec
+						vtx.Event{K: "cbind", C: other, N: uint16(i), Peers: []string{c}, L: -1}) //nolint:gosec
+				}
+			}
+
+			return append(e, vtx.AdvanceMenu(m, now, ns1, nil)...)
+		},
+	}
+}
+
 // Channels is the C08 state space: bind / re-bind / conflicting bind / expiry
 // over in-range and out-of-range numbers and peers differing only in port.
 func Channels(name string, tags map[string]bool) *vtx.Profile {
